@@ -66,6 +66,14 @@ def hosts_for(n, which):
                 for rot in (0, 3):
                     c2, _ = arith.host2(3)
                     yield f'H2:rot{rot}', c2, [pool[(j * 3 + rot) % len(pool)] for j in range(n)]
+        elif h == 'SAT':
+            if n <= 3:
+                c, ops = arith.saturated_host(n)
+                yield 'SAT', c, ops
+        elif h == 'ODD':
+            if n <= 9:
+                c, ops = arith.odd_label_host(n)
+                yield 'ODD', c, ops
         elif h.startswith('F'):
             q = int(h[1:])
             c, ops = folded_host(q, n)
@@ -392,7 +400,7 @@ def plan(tier):
 def describe(tier):
     return {
         'rule': 'configurations: add_sum_n_bits/generate_sum_n_bits (n, 6 basis spellings, endianness, hosts H0 fresh inputs / H1 '
-        'IFF-NOT copies / H2 host with gates, outputs, block and every operand tuple with repeats (n<=3) or two rotations); '
+        'IFF-NOT copies / SAT a host that already contains every two-operand gate over the operands in both operand orders / ODD inputs with unusual labels (empty string, generated-looking names) / H2 host with gates, outputs, block and every operand tuple with repeats (n<=3) or two rotations); '
         'weighted sums efficient+naive (every weight vector over {0..3}^n resp. {0,1}^n, 6 basis spellings, generate_* and add_* on '
         'H0/H1/H2); add_sum_two_numbers(_with_shift) (all widths and shifts incl. shift>=len(a), both endiannesses, H0/H1); '
         'add_sum_pow2_m1 (n, bases, endianness; all 2^n values for n<=12, folded 12-input host above); add_sum2/3/easy. For each: '
@@ -427,7 +435,7 @@ def run_task(task, acc):
         for b in bases:
             for be in (False, True):
                 check_generate_sum_n_bits(acc, n, b, be)
-                hs = ('H0',) if task.get('lite') else (('H0', 'H1', 'H2') if n <= 10 else ('H0', 'H2'))
+                hs = ('H0',) if task.get('lite') else (('H0', 'H1', 'H2', 'SAT', 'ODD') if n <= 10 else ('H0', 'H2'))
                 for htag, c, ops in hosts_for(n, hs):
                     if htag.startswith('H2') and b not in ('XAIG', 'str:aig') and n <= 3:
                         continue
@@ -442,18 +450,30 @@ def run_task(task, acc):
                 for naive in (False, True):
                     check_weighted(acc, w, b, naive)
                     if b in ('XAIG', 'AIG', 'str:AIG'):
-                        for htag, c, ops in hosts_for(n, ('H0', 'H1') if n > 2 else ('H0', 'H1', 'H2')):
+                        for htag, c, ops in hosts_for(n, ('H0', 'H1', 'SAT', 'ODD') if n > 2 else ('H0', 'H1', 'H2', 'SAT', 'ODD')):
                             check_weighted(acc, w, b, naive, htag, c, ops)
         acc.sample({'fn': 'add_sum_n_weighted_bits', 'weights': [task['first']] * n, 'basis': 'str:AIG', 'host': 'H1'})
         return
     if k == 'two':
         na, nb = task['na'], task['nb']
         for be in (False, True):
-            for h in ('H0', 'H1'):
-                c, ops = arith.host(h, na + nb)
+            for h in ('H0', 'H1', 'ODD', 'SAT'):
+                if h == 'SAT' and na + nb > 3:
+                    continue
+                if h == 'ODD' and na + nb > 9:
+                    continue
+
+                def mk(h=h):
+                    if h == 'ODD':
+                        return arith.odd_label_host(na + nb)
+                    if h == 'SAT':
+                        return arith.saturated_host(na + nb)
+                    return arith.host(h, na + nb)
+
+                c, ops = mk()
                 check_two_numbers(acc, na, nb, None, be, h, c, ops)
                 for sh in range(0, task['S'] + 1):
-                    c, ops = arith.host(h, na + nb)
+                    c, ops = mk()
                     check_two_numbers(acc, na, nb, sh, be, h, c, ops)
         acc.sample({'fn': 'add_sum_two_numbers_with_shift', 'na': na, 'nb': nb, 'shift': na + 1, 'big_endian': False, 'host': 'H0'})
         return
